@@ -76,3 +76,20 @@ Definition mk_reqs (nflush ncopy : nat) : list (N * qkind) :=
 
 Definition expect_after (nflush ncopy : nat) (order : list N) : N :=
   completed_after (cstep (cstart (mk_reqs nflush ncopy)) CTick) 0 order.
+
+(** The global-storage ("magic") middleware (memorycopyglobalstorage.go after
+    98dbab99): flushCachesFirst creates one FlushReq per GPU when needFlushing
+    says so; its Tick removes answered flushes and performs the storage copy
+    (copyH2D / copyD2H, which also dequeue the command) when the last one is
+    gone.  Without a flush the copy is done while the command is processed —
+    the same state as an empty command of the default middleware after its tick. *)
+Definition cstart_magic (nflush : nat) : ccmd :=
+  match nflush with
+  | O => cstep (cstart []) CTick
+  | _ => cstart (mk_reqs nflush 0)
+  end.
+
+(** The storage as the command leaves it: touched by the copy exactly when the
+    command completed. *)
+Definition magic_storage {A} (s : ccmd) (before after : A) : A :=
+  if Nat.ltb 0 (cc_done s) then after else before.
